@@ -288,7 +288,10 @@ func c17Judge(img c17Image, last c17Op, before, after c17State, scratch string) 
 			return nil, d, err
 		}
 		st, err := c17Factory(d).Create(c17ID)
-		return st, d, err
+		if err != nil {
+			return nil, d, err // the factory may hand back a typed nil store with the error
+		}
+		return st, d, nil
 	}
 	st, d, err := openImage()
 	defer func() {
